@@ -956,6 +956,9 @@ def splice_fn(item_text_sig, item_body, spec, where, prov, with_goals, goal_inde
         inserts.append((lp["open"], inv_chunks, None, 0))
         if ls.get("top"):
             inserts.append((lp["open"] + 1, "\n" + ls["top"].rstrip() + "\n", ("hint", "loop%d" % o), 0))
+        if ls.get("bottom"):
+            # proof-only hint at the end of the loop body (wrapped in `proof { }`, so Verus rejects anything executable)
+            inserts.append((lp["close"], "\nproof { " + ls["bottom"].strip() + " }\n", ("hint", "loop%d" % o), 0))
         if ls.get("canary", True):
             inserts.append((lp["open"] + 1, "\n/*@CANARY-LOOP@*/", ("canary", "loop%d" % o), 0))
         prov.append({"cls": "A", "what": "loop %d invariant/binder" % o})
